@@ -36,7 +36,7 @@ var modelledSubject = []string{"appendAssign", "appendCombine", "exitAfterDefer"
 
 var witnessNS = map[string]bool{"ns_append_pkgfunc_same": true, "ns_new_pkgfunc_same": true, "ns_sort_local": true, "ns_filepath_alias": true, "ns_flag_pkgvar": true, "ns_cast_pkgfunc": true, "ns_nil_local": true, "ns_exit_local": true}
 
-const tieHeader = "From GC Require Import Base GoAst Model_Checkers Model_Checkers2 Model_Walkers.\nOpen Scope string_scope.\nOpen Scope N_scope.\n\n"
+const tieHeader = "From GC Require Import Base GoAst Model_Checkers Model_Checkers2 Model_Walkers Model_Comments.\nOpen Scope string_scope.\nOpen Scope N_scope.\n\n"
 
 func obsTerm(o ModelObs) string {
 	if o.Panic {
@@ -155,6 +155,19 @@ func writeTie(s *Shared, dir string, all []*Pkg, obs []*FileRun, starts map[*Fil
 				items = append(items, fmt.Sprintf("(%s, %s)", coqfmt.Str(name), obsTerm(o)))
 			}
 			detail := fmt.Sprintf("case_detail2 @FILE@ [%s]", strings.Join(items, "; "))
+			// comment-based checkers read the comment groups and the texts of the doc comments
+			var citems []string
+			for _, name := range ModelledCommentCheckers {
+				if o, ok := run.Outcomes[name]; ok {
+					if o.Panic {
+						panics++
+					}
+					warnTotal += len(o.Offs)
+					citems = append(citems, fmt.Sprintf("(%s, %s)", coqfmt.Str(name), obsTerm(o)))
+				}
+			}
+			cterm := ConvertComments(f)
+			detail = fmt.Sprintf("(%s ++ ccase_detail @FILE@ cs %s [%s])%%list", detail, ConvertDocTexts(f), strings.Join(citems, "; "))
 			if wo := walks[p.Name+"/"+f.Name]; wo != nil {
 				if wo.Err != "" {
 					s.TieBroken = append(s.TieBroken, fmt.Sprintf("walker recorder could not parse %s/%s: %s", p.Name, f.Name, wo.Err))
@@ -168,9 +181,10 @@ func writeTie(s *Shared, dir string, all []*Pkg, obs []*FileRun, starts map[*Fil
 					walkPanics += len(wo.Panic)
 					ct, cev := cwalkTerm(wo)
 					walkEvents += cev
-					detail = fmt.Sprintf("(%s ++ walk_detail @FILE@ %s ++ cwalk_detail @FILE@ %s %s)%%list", detail, wt, ConvertComments(f), ct)
+					detail = fmt.Sprintf("(%s ++ walk_detail @FILE@ %s ++ cwalk_detail @FILE@ cs %s)%%list", detail, wt, ct)
 				}
 			}
+			detail = fmt.Sprintf("(let cs := %s in %s)", cterm, detail)
 			tc := tieCase{desc: p.Name + "/" + f.Name + " " + p.Origin, nodes: n, file: term, term: detail}
 			switch p.Stream {
 			case "S1":
@@ -219,6 +233,6 @@ func writeTie(s *Shared, dir string, all []*Pkg, obs []*FileRun, starts map[*Fil
 	s.TieStats["converted_nodes"] = nodesTotal
 	s.TieStats["observed_panics_of_modelled_checkers"] = panics
 	s.TieStats["observed_warnings_of_modelled_checkers"] = warnTotal
-	s.TieStats["modelled_checkers"] = ModelledCheckers
+	s.TieStats["modelled_checkers"] = append(append([]string{}, ModelledCheckers...), ModelledCommentCheckers...)
 	s.TieStats["walker_tie"] = map[string]interface{}{"walkers": append(append([]string{}, WalkerNames...), CommentWalkerNames...), "files": walkFiles, "shown_nodes_compared": walkEvents, "recorded_panics": walkPanics, "skip_policies": 2}
 }
